@@ -49,7 +49,7 @@ inductive Code where
 structure Scanner where
   st : St
   stack : List PS
-  deriving Repr
+  deriving Repr, DecidableEq
 
 def isSpace (c : UInt8) : Bool := c ≤ 32 && (c == 32 || c == 9 || c == 13 || c == 10)
 
@@ -297,17 +297,20 @@ def trimSpace (bs : Bytes) : Bytes :=
 
 def digitsVal (ds : Bytes) : Nat := ds.foldl (fun acc d => acc * 10 + (d.toNat - 48)) 0
 
-/-- `-?(0|[1-9][0-9]*)` as strconv.ParseInt(·,10,64) reads it, within int64. -/
-def parseInt64 (bs : Bytes) : Option Int :=
-  let (negv, ds) := match bs with
-    | 45 :: rest => (true, rest)
-    | _ => (false, bs)
+/-- the digits part of `parseInt64` (`negv`: a minus sign preceded it) -/
+def parseDigits (negv : Bool) (ds : Bytes) : Option Int :=
   if ds.isEmpty || !ds.all isDigit then none
   else if ds.length > 1 && ds.head? == some 48 then none
   else
     let v := digitsVal ds
     if negv then (if v ≤ 9223372036854775808 then some (-(v : Int)) else none)
     else (if v ≤ 9223372036854775807 then some (v : Int) else none)
+
+/-- `-?(0|[1-9][0-9]*)` as strconv.ParseInt(·,10,64) reads it, within int64. -/
+def parseInt64 (bs : Bytes) : Option Int :=
+  match bs with
+  | 45 :: rest => parseDigits true rest
+  | _ => parseDigits false bs
 
 /-- value bytes of field `h` (already trimmed of leading space by the decoder). -/
 def decodeHeight (raw : Bytes) : Option Int :=
